@@ -261,12 +261,12 @@ PROPS["C07"] = P(
         J("c07_laws_und", unwind=6, uw=LK_UW, desc="kept subtags, all three filled, second maximize is None; arbitrary (und, script?, region?)"),
         J("c07_laws_zh", unwind=6, uw=LK_UW, desc="the same laws for the concrete language zh, every valid (script?, region?)", weight=2),
         J("c07_laws_unknown_qaa", unwind=6, uw=LK_UW, desc="same for qaa, a language without CLDR entry (must never be replaced by a table language)", weight=2),
-        J("c07_laws_lang", tier="x", unwind=6, uw=LK_UW, desc="same for arbitrary non-empty language (touches the 7143-row table)", weight=5, mem_gb=40, cbmc=["--no-pointer-check"], trace=False, timeout_t=5400),
+        J("c07_laws_lang", tier="t", unwind=6, uw=LK_UW, desc="same for arbitrary non-empty language (touches the 7143-row table)", weight=5, mem_gb=40, cbmc=["--no-pointer-check"], trace=False, timeout_t=5400),
         J("c07_full_is_fixpoint", tier="t", unwind=6, uw=LK_UW, desc="language+script+region all present => maximize is None / false / unchanged (closes idempotence); the language's emptiness is a niche value of its first byte, so CBMC also explores the table branch", weight=5, mem_gb=40, cbmc=["--no-pointer-check"], trace=False, timeout_t=5400),
         J("c07_wrapper_und", unwind=6, uw=mk(VAL_UW, LK_UW), desc="LanguageIdentifier::maximize: variants untouched, bool<=>changed, false=>unchanged, idempotent; und language, <=2 variants", weight=3, mem_gb=12),
     ],
-    bounds="every valid (script?, region?) with und language and with the concrete languages zh and qaa (unknown to CLDR) ; thorough adds: every valid (language, script, region) with all three present is a fixed point; wrapper with 0..2 variants",
-    outside="the add-only laws for an arbitrary symbolic language (kept for reference); for symbolic languages the thorough tier decides the fixed-point clause (a triple with all three present is left alone, which with 'all three present afterwards' gives idempotence); Locale extensions attached to the identifier (Locale.id is a plain LanguageIdentifier field; extension state is not reachable from LanguageIdentifier::maximize)",
+    bounds="every valid (script?, region?) with und language and with the concrete languages zh and qaa (unknown to CLDR) ; thorough adds: the same laws for every valid (language, script?, region?) and 'a triple with all three present is a fixed point' (which closes idempotence); wrapper with 0..2 variants",
+    outside="in the quick tier symbolic languages are not covered (the thorough tier decides the add-only laws and the fixed-point clause for every valid language: 7143-row table with a symbolic key); Locale extensions attached to the identifier (Locale.id is a plain LanguageIdentifier field; extension state is not reachable from LanguageIdentifier::maximize)",
 )
 PROPS["C14"] = P(
     jobs=[
